@@ -164,7 +164,7 @@ def K(kind, body):
     return (kind, list(body))
 
 
-KINDS = ["defer", "edefer", "with", "try", "protect", "prompt", "withdyns"]
+KINDS = ["defer", "edefer", "with", "withvars", "try", "protect", "prompt", "withdyns"]
 RET = ("return", "t1")
 ROOT_SCRIPTS_C = {
     "r4": [T(RES(1))] * 4,
@@ -288,7 +288,7 @@ def define(tier=None):
     # ---- cleanup
     scc = sorted(ROOT_SCRIPTS_C)
     space("cleanup1", [scc, ["", "y", "e", "t", "a", "5"], KINDS, seqs([Y, ER, SG(0), SG(4), SG(5), SG(9), RET], 2), [[], [Y]]],
-          b_cleanup1, doc="each cleanup form (defer edefer with try protect prompt with-dyns) around every body of <=2 "
+          b_cleanup1, doc="each cleanup form (defer edefer with with-vars try protect prompt with-dyns) around every body of <=2 "
                           "signal statements; root resumes / cancels at every point")
     space("cleanup1+", [scc, ["", "y", "e", "t", "a", "5"], KINDS, seqs([Y, ER, SG(0), SG(4), SG(5), SG(9), RET], 3, 3), [[], [Y]]],
           b_cleanup1, doc="bodies of exactly 3 statements")
